@@ -3,7 +3,7 @@
 # integrator on the replica model and is added by appending its module to PROPS / its theorem names to
 # REQUIRED_B below (both lists are concatenated into CFG).
 
-PROPS_A = ["EraVerif.Props.C16"]
+PROPS_A = ["EraVerif.Props.C16", "EraVerif.Props.C16gen"]
 PROPS_B = ["EraVerif.Props.C16b"]   # part (b): the replica's vote caches
 
 REQUIRED_A = [
@@ -12,16 +12,19 @@ REQUIRED_A = [
     "pending_is_max_since_last_recv", "firstMax_is_first_of_max_view", "since_without_pop",
     "freshest_vote_survives_queue", "recv_never_panics", "send_never_empties",
     "recvs_deliver_pending_in_order",
+    "gen_selection_eq", "gen_filter_eq", "gen_selection_by_number_only",
 ]
 REQUIRED_B = ["cacheInv_reachable", "commit_views_bounded", "timeout_views_bounded", "commit_qcs_views_bounded",
               "timeout_qcs_views_bounded", "commit_qcs_entries_bounded", "flood_bounded"]
 
 CFG = {
-    "gen": [],
+    "gen": ["QueueFns"],
     "props": PROPS_A + PROPS_B,
     "required_theorems": REQUIRED_A + REQUIRED_B,
     "technique": "Lean 4 theorems (induction over arbitrary event lists) about an executable model of "
                  "prunable_mpsc::Sender::send / Receiver::recv with the bft filter predicate and selection function "
+                 "(both regenerated from bft/src/lib.rs on every run, tools/translate_queue.py -> Gen/QueueFns, and proved equal to "
+                 "the model's in Props/C16gen) "
                  "+ differential run of the real channel from create_input_channel() with really signed messages",
     "level_text": "PART (b), the replica's vote caches: on the replica model (Model/Replica.lean, validated against the real "
                   "StateMachine by the replica correspondence in Flood mode: validly signed commit/timeout votes for arbitrary future "
